@@ -58,6 +58,7 @@ def check(ctx):
     ctx.rule("R3", "in-memory counters move together: append grows buffer and _len on the same paths; every filtered command in the flusher is accounted by skip(1); flush snapshots the buffer before resetting it", floor=5)
     ctx.rule("R4", "FIFO ticket protocol: every queue.append(self) is followed on every normal path by wait_for(front) .. popleft() .. notify_all() under the condition; the front test compares with queue[0]", floor=6)
     ctx.rule("R6", "a read is served from the in-memory tail or from the file opened under the reader's own ticket; per-history state it is served from otherwise (a read cache) is dropped by every method that rewrites the history file", floor=3)
+    ctx.rule("R9", "the session's own file is recognised among the enumerated history files: the enumeration hands out the paths as the directory listing spells them (no realpath / abspath / normpath on the way), and every `== <own file>` test compares a str with a str - the session's file name is stored as a str whatever the caller handed over ($XONSH_HISTORY_FILE arrives as a pathlib.Path) - otherwise the session's flushed commands are listed twice", floor=3)
     ctx.rule("R8", "one definition of 'how many commands are there': the raw append counter (which still counts commands a flush skipped) is read by JsonHistory.__len__ only; every index computation - the memory/disk boundary in particular - starts from len(), never from the counter itself", floor=1)
     ctx.rule("R7", "SQLite backend: a command is left out as a repeat only when its recorded text equals the recorded text of the previous entry - the comparison, the stored text and the remembered text are one expression", floor=3)
     ctx.rule("R5", "one history entry per executed command: every exit of BaseShell.default after run_compiled_code passes _append_history exactly once", floor=2)
@@ -319,6 +320,7 @@ def check(ctx):
     _read_provenance(ctx)
     _sqlite_dedup(ctx)
     _raw_counter_private(ctx)
+    _own_file_recognised(ctx)
 
 
 def _sqlite_dedup(ctx):
@@ -500,6 +502,50 @@ def _raw_counter_private(ctx):
                 n += 1
                 ok = q in allowed
                 ctx.ob("R8", f"{HJ}:{q}", f"`{short(stmt_of(a), 60)}`: the raw counter `{a.attr}` is read only to compute len()", ok, key=f"{q}|raw-counter-read|{a.attr}", where=loc(a))
+
+
+def _own_file_recognised(ctx):
+    hm = ctx.repo.module(HJ)
+    NORMALISERS = {"realpath", "abspath", "normpath", "normcase", "resolve", "absolute", "expanduser_abs_path", "samefile"}
+    n = 0
+    for q in ("_xhj_get_history_files", "_xhj_get_data_dir_files"):
+        fn = hm.func(q)
+        # the custom-file branch spells $XONSH_HISTORY_FILE the way the session does: only what is applied to *listed* files counts
+        listed = set()
+        for l_ in [x for x in ast.walk(fn) if isinstance(x, (ast.For, ast.comprehension))]:
+            it_txt = unparse(l_.iter)
+            if any(k in it_txt for k in ("scandir", "listdir", "_xhj_get_data_dir_files", "iterdir", "glob")):
+                listed |= {t.id for t in ast.walk(l_.target) if isinstance(t, ast.Name)}
+        bad = [c for c in calls_in(fn, local=False) if (call_name(c) or "").split(".")[-1] in NORMALISERS and any(listed & df.names_read(a) for a in list(c.args) + ([c.func.value] if isinstance(c.func, ast.Attribute) else []))]
+        n += 1
+        ctx.ob("R9", f"{HJ}:{q}", "listed files are handed out as the listing spells them (a normalised spelling no longer equals the session's own file name, which is joined from the same directory un-normalised)", not bad, key=f"{q}|listed-path-normalised", where=loc(bad[0]) if bad else loc(fn), detail=short(bad[0], 60) if bad else None)
+    # the session side of the own-file tests
+    init = hm.func("JsonHistory.__init__", raw=True)
+    STR_MAKERS = {"os.path.join", "str", "os.fspath", "os.path.abspath", "os.path.expanduser", "os.fsdecode"}
+    stores = [a for a in walk_local(init) if isinstance(a, ast.Assign) and any(unparse(t) == "self.filename" for t in a.targets)]
+    if not stores:
+        raise AnchorMissing(f"{HJ}:JsonHistory.__init__: self.filename")
+    init_str = all(isinstance(a.value, ast.Call) and (call_name(a.value) or "") in STR_MAKERS for a in stores)
+    for q, fn in hm.functions():
+        fdefs = None
+        for c in [x for x in walk_local(fn) if isinstance(x, ast.Compare) and len(x.ops) == 1 and isinstance(x.ops[0], (ast.Eq, ast.NotEq))]:
+            sides = [c.left, c.comparators[0]]
+            for sd in sides:
+                e = sd
+                if isinstance(e, ast.Name):
+                    fdefs = fdefs or df.all_defs(fn)
+                    ds = fdefs.get(e.id, [])
+                    if len(ds) == 1 and ds[0].value is not None:
+                        e = ds[0].value
+                txt = unparse(e)
+                if "filename" not in txt or not any(k in txt for k in ("self.filename", "hist", "history")):
+                    continue
+                n += 1
+                wrapped = isinstance(e, ast.Call) and (call_name(e) or "") in ("str", "os.fspath") or any(isinstance(x, ast.Call) and (call_name(x) or "") in ("str", "os.fspath") and "filename" in unparse(x) for x in ast.walk(e))
+                ok = wrapped or init_str
+                ctx.ob("R9", f"{HJ}:{q}", f"`{short(c, 50)}` compares the listed path (a str) with the session's file name as a str", ok, key=f"{q}|own-file-test-mixes-types", where=loc(c), detail=None if ok else "JsonHistory.__init__ stores the `filename` argument as it comes (a pathlib.Path when $XONSH_HISTORY_FILE is set) and the test does not convert it")
+    if n < 3:
+        raise AnalysisError(f"{HJ}: own-file tests not found ({n})")
 
 META = {
     "technique": "static analysis: format-string layout arithmetic (string.Formatter) against writer/reader constants, literal-length vs offset-increment pairing, CFG must-pass-through for counters, the ticket protocol and the history append",
